@@ -158,5 +158,17 @@ FinalStructure ==
         /\ ("tmcintopt" \in Range(mem.cols) <=> cfg.mode = "Target" /\ cfg.optical /\ cfg.survivors)
         /\ ("tmcintrad" \in Range(mem.cols) <=> cfg.mode = "Target" /\ cfg.radio /\ cfg.survivors)
 
+(* What C14 demands of an implementation (trace validation): every enabled stage's columns, once each, and the four integral   *)
+(* keywords of each enabled channel ARE there.  Further columns or keywords (diagnostics a maintainer adds) are not excluded by *)
+(* the property; that the design has none is the exact form above, checked on the model and reported as an extended-spec         *)
+(* deviation on traces.                                                                                                          *)
+FinalStructureAtLeast ==
+    phase = "returned" =>
+        /\ ExpCols(cfg) \subseteq Range(mem.cols)
+        /\ \A i, j \in 1..Len(mem.cols) : i # j => mem.cols[i] # mem.cols[j]
+        /\ ExpMeta(cfg) \subseteq mem.meta
+        /\ (~cfg.survivors => IsPrefix(GeomCols(cfg), mem.cols))
+        /\ (cfg.mode = "Target" => "times" \in Range(mem.cols))
+
 Terminates == <>(phase # "run")
 =============================================================================
